@@ -476,6 +476,27 @@ def run(ctx):
     gfs = {field_of(("P", n_[1], n_[2])) for n_ in gsl if n_[0] == "SRC"}
     ctx.require("nodes_vec" in gfs and not (gfs & {"nodes_map", "nodes_map_rev"}), "V5", "get_all_nodes", "get_all_nodes returns the position-ordered store", "get_all_nodes reads %s" % sorted(x for x in gfs if x), loc_str(gan.span))
 
+    # ------------------------------------------------------------------ V8 one <edge> per stored edge
+    ctx.rule("V8", "the writer emits one <edge> element per stored edge: its edge loop walks get_all_edges() through one-to-one steps only (no set, no dedup, no filter)")
+    edge_elem_events = [t for t in wb.calls() if t.callee and t.callee.short.endswith("BytesStart::new") and lit_str(wfl.describe(t.args[0], depth=6)) == "edge"]
+    ok8 = False
+    why8 = "no loop around the <edge> element"
+    if edge_elem_events:
+        t = edge_elem_events[0]
+        for nx in wb.calls():
+            if nx.callee and nx.callee.short == "std::iter::Iterator::next":
+                lb = hashord.natural_loop_blocks(wb, nx.bb)
+                if t.bb not in lb:
+                    continue
+                sl = wfl.slice_local(wfl._op_reads(nx.args[0]), data_only=True)
+                terms = [wb.blocks[n_[1]].term for n_ in sl if n_[0] == "CALL" and wb.blocks[n_[1]].term.callee]
+                cal = {x.callee.short.split("::")[-1] for x in terms}
+                lossy = sorted(cal & {"dedup", "dedup_by", "dedup_by_key", "unique", "unique_by", "filter", "filter_map", "take", "skip", "step_by", "take_while", "skip_while", "find", "last", "first", "nth", "min", "max"})
+                sets = sorted({x.dest.ty.split("<")[0] for x in terms if x.dest.ty.split("<")[0].split("::")[-1] in ("BTreeSet", "HashSet", "BTreeMap", "HashMap", "IndexSet")})
+                ok8 = "get_all_edges" in cal and not lossy and not sets
+                why8 = "iterates %s%s%s" % (sorted(cal), (", dropping elements through %s" % lossy) if lossy else "", (", collecting them into %s (Edge's Eq/Ord compare the endpoints only, so parallel edges collapse)" % sets) if sets else "")
+    ctx.require(ok8, "V8", "edge-per-edge", "<edge> elements are written by iterating get_all_edges() one to one", "the writer's <edge> loop %s: the document has fewer <edge> elements than the graph has edges" % why8, loc_str(wb.span))
+
     # ------------------------------------------------------------------ V6 file = string
     ctx.rule("V6", "file variants wrap the string variants with file I/O only")
     wfile = prog.one("graphml::write_graphml_file")
